@@ -160,7 +160,7 @@ def run_item(item):
                 err = ("rng-leak", "the global torch generator was consumed outside the seam")
             return sm.calls, (out, err, script)
 
-        bound = (bnd["deviations"] if G.depth(a) <= 1 else min(1, bnd["deviations"])) if deviate else 0
+        bound = (bnd["deviations"] if G.depth(a) <= 1 else 0) if deviate else 0     # nestings of two operators: default answers only
         for script, (out, err, _) in explore_deviations(run, bound):
             res["evals"] += 1
             sc = ",".join("%d:%s" % kv for kv in sorted(script.items())) or "NET"
@@ -196,7 +196,7 @@ def run_item(item):
             if outs and len(outs[0]) > 0:
                 res["outcomes"].append("%s|%s" % (state, sc))
 
-    ns = bnd["n"]
+    ns = bnd["n"] if G.depth(a) <= 1 else [n_ for n_ in bnd["n"] if n_ in (1, 3, 7)]   # nestings of two operators: three counts
     dev_ns = set(bnd["deviated_n"])
     if space_dim >= 3:
         ns = [n for n in ns if n <= 100]
